@@ -47,6 +47,10 @@ REPS = {   # two representatives per shape
 }
 
 
+def async_(b): return {"e": "async", "b": b}
+def await_(a): return {"e": "await", "a": a}
+
+
 def prog(pid, body, vars_=(), tags=()):
     return {"id": pid, "body": body, "vars": [{"n": n, "v": v} for n, v in vars_], "tags": list(tags)}
 
@@ -445,6 +449,181 @@ def all_programs(tier, seed):
     g = Gen(rnd)
     for _ in range(600 if tier == "quick" else 12000):
         progs.append(g.program())
+    for i, p in enumerate(progs):
+        p["id"] = i
+    return progs
+
+
+# ---- async / await (C09) -------------------------------------------------------------------------------
+def async_table():
+    """blocks and parents that overlap: the parent keeps declaring and assigning while blocks run, blocks read
+    (and write) names of the parent, nest, contain control flow, fail; futures awaited late, twice, never"""
+    out = []
+    I = lambda n: lit(vint(n))
+    T, F = lit(vbool(True)), lit(vbool(False))
+    add = lambda a, b: bin_("+", a, b)
+    mul = lambda a, b: bin_("*", a, b)
+    lt = lambda a, b: bin_("<", a, b)
+    spin = lambda name, n, body: [decl(name, I(0)), while_(lt(var(name), I(n)), body + [set_(name, add(var(name), I(1)))])]
+    P = lambda body, tags, vars_=(): out.append(prog("", body, vars_, ["async"] + tags))
+    P([decl("f", async_([ret(add(I(1), I(2)))])), ret(await_(var("f")))], ["simple"])
+    P([decl("f", async_([decl("x", I(10)), decl("y", I(20)), ret(add(var("x"), var("y")))])), decl("r", await_(var("f"))), ret(obj([("value", var("r"))]))], ["locals-in-block"])
+    P([decl("f1", async_([ret(I(100))])), decl("f2", async_([ret(I(200))])), decl("f3", async_([ret(I(300))])),
+       decl("r3", await_(var("f3"))), decl("r1", await_(var("f1"))), decl("r2", await_(var("f2"))), ret(arr([var("r1"), var("r2"), var("r3")]))], ["three-awaited-out-of-order"])
+    P([decl("f", async_([ret(I(7))])), ret(arr([await_(var("f")), await_(var("f")), await_(var("f"))]))], ["await-thrice"])
+    P([decl("f", async_([ret(I(7))])), decl("g", var("f")), ret(arr([await_(var("g")), await_(var("f"))]))], ["two-awaiters-via-copy"])
+    # the parent goes on declaring and assigning while the block reads
+    P([decl("a", I(1)), decl("f", async_(spin("i", 20, [decl("t", add(var("a"), var("i")))]) + [ret(mul(var("a"), I(2)))])),
+       decl("b", I(5)), set_("a", I(7)), decl("c", arr([var("a"), var("b")])), decl("d", I(9)), decl("e", add(var("d"), var("b"))),
+       ret(arr([await_(var("f")), var("a"), var("c"), var("e")]))], ["parent-declares-and-assigns-while-block-reads"])
+    P([decl("a", I(1))] + [decl("f", async_(spin("i", 20, [decl("t", add(var("a"), var("i")))]) + [ret(var("a"))]))]
+      + spin("j", 20, [decl("u", add(var("j"), I(1))), set_("a", add(var("a"), I(1)))]) + [ret(arr([await_(var("f")), var("a")]))], ["parent-loop-assigns-what-block-reads"])
+    # the block writes names of the parent: the write stays in the block
+    P([decl("a", I(1)), decl("f", async_([set_("a", I(99)), ret(var("a"))])), decl("r", await_(var("f"))), ret(arr([var("r"), var("a")]))], ["block-assigns-parent-name"])
+    P([decl("a", I(1)), decl("f", async_([decl("a", I(50)), ret(var("a"))])), decl("r", await_(var("f"))), ret(arr([var("r"), var("a")]))], ["block-declares-parent-name"])
+    P([decl("f", async_([decl("z", I(5)), ret(var("z"))])), decl("r", await_(var("f"))), decl("z", I(6)), ret(arr([var("r"), var("z")]))], ["block-local-not-visible-to-parent"])
+    P([decl("f", async_([decl("z", I(5)), ret(var("z"))])), decl("r", await_(var("f"))), ret(var("z"))], ["block-local-undefined-in-parent"])
+    # two blocks, same parent names
+    P([decl("n", I(3)), decl("f", async_([decl("s", I(0))] + [for_(None, "v", arr([I(1), I(2), I(3)]), [set_("s", add(var("s"), mul(var("v"), var("n"))))]), ret(var("s"))])),
+       decl("g", async_([decl("s", I(100))] + [for_(None, "v", arr([I(1), I(2)]), [set_("s", add(var("s"), var("n")))]), ret(var("s"))])),
+       set_("n", I(1000)), ret(arr([await_(var("f")), await_(var("g")), var("n")]))], ["two-blocks-same-names"])
+    # control flow inside blocks
+    for qv in (vint(5), vint(-2), vint(0)):
+        q = [("qi", qv)]
+        P([decl("f", async_([if_(lt(var("qi"), I(0)), [ret(I(-1))], [ret(I(1))])])), ret(await_(var("f")))], ["control", "if-else-returns"], q)
+        P([decl("f", async_([if_(lt(var("qi"), I(0)), [ret(I(-1))]), decl("t", mul(var("qi"), I(2))), ret(var("t"))])), ret(await_(var("f")))], ["control", "guard-then-fallthrough"], q)
+        P([decl("f", async_([decl("i", I(0)), decl("s", I(0)), while_(lt(var("i"), var("qi")), [set_("s", add(var("s"), var("i"))), set_("i", add(var("i"), I(1)))]), ret(var("s"))])),
+           ret(await_(var("f")))], ["control", "while"], q)
+        P([decl("f", async_([decl("s", I(0)), for_("k", "v", arr([I(4), I(5), I(6)]), [if_(bin_("==", var("k"), I(1)), [cont()]), if_(bin_("==", var("v"), var("qi")), [brk()]), set_("s", add(var("s"), var("v")))]), ret(var("s"))])),
+           ret(await_(var("f")))], ["control", "for-break-continue"], q)
+        P([decl("f", async_([switch(var("qi"), [(I(5), [ret(lit(vstr("five")))]), (I(0), [ret(lit(vstr("zero")))])], [ret(lit(vstr("other")))])])), ret(await_(var("f")))], ["control", "switch"], q)
+        P([decl("f", async_([decl("i", I(0)), while_(T, [set_("i", add(var("i"), I(1))), if_(bin_(">", var("i"), I(3)), [ret(var("i"))])]), ret(I(-1))])), ret(await_(var("f")))], ["control", "return-from-loop"], q)
+    # nesting
+    P([decl("top", I(4)), decl("f", async_([decl("g", async_([ret(mul(var("top"), I(10)))])), ret(add(await_(var("g")), I(1)))])), ret(await_(var("f")))], ["nested", "inner-reads-outermost-only"])
+    P([decl("top", I(4)), decl("f", async_([decl("mid", add(var("top"), I(1))), decl("g", async_([ret(add(var("top"), var("mid")))])), ret(await_(var("g")))])), ret(await_(var("f")))], ["nested", "inner-reads-both"])
+    P([decl("f", async_([decl("g", async_([decl("h", async_([ret(I(3))])), ret(add(await_(var("h")), I(1)))])), ret(add(await_(var("g")), I(1)))])), ret(await_(var("f")))], ["nested", "three-deep"], [("qi", vint(2))])
+    P([decl("top", I(4)), decl("f", async_([decl("g", async_([ret(var("qi"))])), ret(await_(var("g")))])), ret(await_(var("f")))], ["nested", "inner-reads-request-input"], [("qi", vint(41))])
+    # failures
+    P([decl("f", async_([ret(bin_("/", I(1), I(0)))])), ret(await_(var("f")))], ["error", "awaited"])
+    P([decl("f", async_([ret(bin_("/", I(1), I(0)))])), ret(I(5))], ["error", "never-awaited"])
+    P([decl("f", async_([ret(var("nope"))])), decl("g", async_([ret(I(2))])), decl("r", await_(var("g"))), ret(await_(var("f")))], ["error", "undefined-in-block"])
+    P([decl("f", async_([ret(bin_("/", I(1), I(0)))])), decl("ok", I(1)), if_(F, [ret(await_(var("f")))]), ret(var("ok"))], ["error", "await-not-reached"])
+    P([ret(await_(I(5)))], ["await-non-future"])
+    P([decl("x", I(5)), ret(add(await_(var("x")), I(1)))], ["await-non-future-var"])
+    P([decl("f", async_([brk(), ret(I(1))])), ret(await_(var("f")))], ["error", "break-outside-loop-in-block"])
+    P([decl("f", async_([decl("s", I(3))])), ret(await_(var("f")))], ["block-without-return"])
+    P([decl("f", async_([ret(arr([I(1), obj([("a", lit(vfloat(2.5)))]), lit(vnull())]))])), ret(await_(var("f")))], ["structured-value"])
+    return out
+
+
+class AsyncGen(Gen):
+    def program(self):
+        r = self.r
+        vars_ = []
+        env = {}
+        if r.random() < 0.6:
+            vars_.append(("qi", vint(r.choice([0, 1, 4, 9]))))
+            env["qi"] = "int"
+        body = []
+        pre = self.block(env, 1, False, n=r.randint(1, 3))
+        body += pre
+        for s_ in pre:
+            if s_["s"] == "decl" and s_["x"]["e"] != "async":
+                env.setdefault(s_["n"], self._type_of(s_, env))
+        futs = []
+        for k in range(r.randint(1, 3)):
+            inner = self.block(dict(env), 1, False, n=r.randint(1, 3))
+            ienv = dict(env)
+            for s_ in inner:
+                if s_["s"] == "decl":
+                    ienv.setdefault(s_["n"], self._type_of(s_, ienv))
+            if r.random() < 0.25:
+                inner.append(decl("g%d" % k, async_(self.block(dict(ienv), 1, False, n=1) + [ret(self.expr("int", ienv))])))
+                inner.append(ret(arr([await_(var("g%d" % k)), self.expr("int", ienv)])))
+            else:
+                inner.append(ret(self.expr(r.choice(["int", "arr", "str"]), ienv)))
+            body.append(decl("f%d" % k, async_(inner)))
+            futs.append("f%d" % k)
+            # the parent goes on
+            more = self.block(env, 1, False, n=r.randint(0, 3))
+            body += more
+            for s_ in more:
+                if s_["s"] == "decl":
+                    env.setdefault(s_["n"], self._type_of(s_, env))
+        order = futs[:]
+        r.shuffle(order)
+        if r.random() < 0.3:
+            order.append(r.choice(futs))
+        outs = []
+        for i, f in enumerate(order):
+            body.append(decl("r%d" % i, await_(var(f))))
+            outs.append(var("r%d" % i))
+        names = [n for n in env if n not in ("qi",)][:3]
+        return prog("", body + [ret(arr(outs + [var(n) for n in names]))], vars_=vars_, tags=["async", "random"])
+
+    def _type_of(self, st, env):
+        return self._ty(st["x"], env)
+
+    def _ty(self, e, env):
+        k = e["e"]
+        if k == "lit":
+            return e["v"]["k"]
+        if k == "var":
+            return env.get(e["n"], "int")
+        if k == "arr":
+            return "arr"
+        if k == "obj":
+            return "obj"
+        if k == "un":
+            return "bool" if e["op"] == "!" else self._ty(e["a"], env)
+        if k == "bin":
+            if e["op"] in ("==", "!=", "<", "<=", ">", ">=", "&&", "||"):
+                return "bool"
+            a, b = self._ty(e["a"], env), self._ty(e["b"], env)
+            if a == "str" or b == "str":
+                return "str"
+            if a == "arr":
+                return "arr"
+            return "float" if "float" in (a, b) else "int"
+        if k in ("idx", "call"):
+            return "int"
+        return "int"
+
+
+def _no_continue_in_while(stmts, inwhile=False):
+    """random while loops count upwards and increment last: a `continue` would skip the increment and spin to the
+    iteration limit, which says nothing about async blocks and takes seconds"""
+    out = []
+    for s_ in stmts:
+        k = s_["s"]
+        if k == "continue" and inwhile:
+            out.append(expr(call("length", lit(vstr("c")))))
+            continue
+        s_ = dict(s_)
+        if k == "if":
+            s_["t"] = _no_continue_in_while(s_["t"], inwhile)
+            s_["f"] = _no_continue_in_while(s_["f"], inwhile)
+        elif k == "while":
+            s_["b"] = _no_continue_in_while(s_["b"], True)
+        elif k == "for":
+            s_["b"] = _no_continue_in_while(s_["b"], False)
+        elif k == "switch":
+            s_["cases"] = [dict(c, b=_no_continue_in_while(c["b"], inwhile)) for c in s_["cases"]]
+            s_["d"] = _no_continue_in_while(s_["d"], inwhile)
+        if k in ("decl", "set") and s_["x"]["e"] == "async":
+            s_["x"] = async_(_no_continue_in_while(s_["x"]["b"], False))
+        out.append(s_)
+    return out
+
+
+def async_programs(tier, seed):
+    rnd = random.Random(seed * 7919 + 11)
+    progs = async_table()
+    g = AsyncGen(rnd)
+    for _ in range(150 if tier == "quick" else 3000):
+        p = g.program()
+        p["body"] = _no_continue_in_while(p["body"])
+        progs.append(p)
     for i, p in enumerate(progs):
         p["id"] = i
     return progs
